@@ -17,4 +17,6 @@ for m in spec/proofs/*.tla; do
   rm -f /tmp/sany_$n.log
 done
 command -v tlapm >/dev/null || { echo "tlapm missing"; exit 1; }
+# spec/apalache/*.tla are wrappers for the symbolic checker (they EXTEND its Apalache module): parsed by apalache-mc inside the checks
+command -v apalache-mc >/dev/null || { echo "apalache-mc missing"; exit 1; }
 echo "setup ok"
